@@ -313,8 +313,15 @@ Definition so_step (prop : Z) (ns : nat) (snaps : list (list ssnap)) (o : so) (r
                             let o1 := if prop =? 5 then so_req o0 (match sget p (o_store o0) with None => true | Some st => negb (k_cid st =? p_cid x) || existsb (fun g => fst g =? p) (o_gonep o0) end) 502 else o0 in
                             so_upd o1 (o_store o1) (if existsb (fun g => fst g =? p) (o_gonep o1) then o_ack o1 else sdel p (o_ack o1)) (o_rpcs o1) (o_gonep o1) (o_apie o1) (o_ingc o1) (o_failed o1) (o_restarted o1)
                           else
-                            (* a DEL for another sandbox neither releases nor removes the current allocation *)
-                            (if prop =? 4 then so_req o0 (match sget p (o_store o0) with Some st => rec_eqb st old | None => false end) 403 else o0)
+                            match sget p (o_store o0), prop =? 4 with
+                            | None, false =>
+                                (* the record on disk was the one of THIS sandbox (its ADD reached the disk but its reply was lost
+                                   in a crash): the DEL removed it and the pod's hold has ended *)
+                                so_upd o0 (o_store o0) (sdel p (o_ack o0)) (o_rpcs o0) (o_gonep o0) (o_apie o0) (o_ingc o0) (o_failed o0) (o_restarted o0)
+                            | st, _ =>
+                                (* a DEL for another sandbox neither releases nor removes the current allocation *)
+                                (if prop =? 4 then so_req o0 (match st with Some st => rec_eqb st old | None => false end) 403 else o0)
+                            end
                       | None => o0 end
                     else o0
                   else
@@ -345,10 +352,12 @@ Definition so_step (prop : Z) (ns : nat) (snaps : list (list ssnap)) (o : so) (r
   | [44; p] =>
       (* a new instance of the name exists.  During a GC pass the API may already have said "gone" for the old instance:
          the entry stays, flagged (count -2000000), until the pass ends *)
+      (* (an exemption entry — the pod's release fails at the interface, count around -1000000 — stays: the fault is still on) *)
+      let counted g := (fst g =? p) && negb (snd g <? -500000) in
       so_upd o (o_store o) (o_ack o) (o_rpcs o)
-             (if o_ingc o && existsb (fun g => fst g =? p) (o_gonep o)
-              then (p, -2000000) :: filter (fun g => negb (fst g =? p)) (o_gonep o)
-              else filter (fun g => negb (fst g =? p)) (o_gonep o))
+             (if o_ingc o && existsb counted (o_gonep o)
+              then (p, -2000000) :: filter (fun g => negb (counted g)) (o_gonep o)
+              else filter (fun g => negb (counted g)) (o_gonep o))
              (o_apie o) (o_ingc o) (o_failed o) (o_restarted o)
   | [40; p; b] =>
       (* a pod whose release fails at the interface is exempt from the two-pass clause (it can never be collected) *)
